@@ -16,7 +16,7 @@
   `PubSubManager` / `pattern_matches` (in-process) and on the real server over TCP with the
   model switch set from the same extraction.
 -/
-import FerrousSpec.Proofs.PubSubRaw
+import FerrousSpec.Proofs.PubSubAcks
 import FerrousSpec.Gen.PubSub
 namespace Ferrous.C14
 open Ferrous Ferrous.PubSub
@@ -55,20 +55,47 @@ theorem empty_entry_after_empty_subscribe :
 
 /-! ### (2) Acknowledgements carry the remaining subscription count -/
 
-/-- The acknowledgements the code returns for any operation after any history are exactly the
-    spec's: one per name, each carrying the number of subscriptions (channels + patterns) the
-    client holds right after that name was processed (`spec_ack_is_count`) — except that the
-    code returns none at all for (P)UNSUBSCRIBE by a connection that holds nothing. -/
-theorem ack_count_correct (ops : List Op) (op : Op) :
+/-- FULL STATEMENT (the tree now, `idle = true`): after every history, what the server writes in
+    answer to SUBSCRIBE / PSUBSCRIBE / UNSUBSCRIBE / PUNSUBSCRIBE is exactly what is prescribed:
+    one confirmation per name, each carrying the number of subscriptions (channels + patterns)
+    the client holds right after that name was processed (`spec_ack_is_count`); without names one
+    per subscription of that kind held, or — when none is held — a single confirmation with a nil
+    name and the count.  No exception for clients that hold nothing. -/
+theorem ack_count_correct (dedup : Bool) (ops : List Op) (c : ConnId) (k : Kind) :
+    (∀ xs, Code.emit dedup true (Code.after {} ops) (.subscribe c k xs) =
+           Spec.emit (Spec.after [] ops) (.subscribe c k xs)) ∧
+    (∀ xs, Code.emit dedup true (Code.after {} ops) (.unsubscribe c k xs) =
+           Spec.emit (Spec.after [] ops) (.unsubscribe c k xs)) :=
+  ⟨fun xs => emit_subscribe_eq (Rel.init.after ops) dedup true c k xs,
+   fun xs => emit_unsubscribe_eq (Rel.init.after ops) dedup c k xs⟩
+
+/-- The same one level down, for the library API: the `SubResult`s `PubSubManager` returns are the
+    prescribed acknowledgements, except that `unsubscribe` / `punsubscribe` return none at all for a
+    connection without an entry (the handlers then write the confirmations themselves). -/
+theorem manager_results_eq_spec (ops : List Op) (op : Op) :
     (Code.apply (Code.after {} ops) op).2 =
       if Code.silent (Code.after {} ops) op then [] else (Spec.apply (Spec.after [] ops) op).2 :=
   ((Rel.init.after ops).next op).2
 
+/-- WITNESS: without the handlers' fallback (`idle = false`, the tree as pinned) a client holding
+    nothing gets no confirmation where one with count 0 is due. -/
+theorem acks_missing_without_fallback :
+    Code.emit true false {} (.unsubscribe 1 .chan (some [[97]])) = [] ∧
+    Spec.emit [] (.unsubscribe 1 .chan (some [[97]])) = [(1, .ack ⟨.chan, true, [97], 0, false⟩)] ∧
+    Code.emit true false {} (.unsubscribe 1 .pat none) = [] ∧
+    Spec.emit [] (.unsubscribe 1 .pat none) = [(1, .ackNil .pat 0)] := by decide
+
+/-- Tie to the code: `handle_unsubscribe` and `handle_punsubscribe` contain the fallback, so the
+    full statement speaks about the current tree.  Fails to check if it is removed. -/
+theorem tree_acks_when_idle : Gen.pubsubAcksWhenIdle = true := by decide
+
 /-- What the spec's acknowledgement count is: the size of the client's subscription set at that
-    moment. -/
+    moment (also in the nil-name confirmation). -/
 theorem spec_ack_is_count (k : Kind) (c : ConnId) (s : Spec.State) (x : Bytes) :
     (Spec.sub1 k c s x).2.count = Spec.count (Spec.sub1 k c s x).1 c ∧
-    (Spec.unsub1 k c s x).2.count = Spec.count (Spec.unsub1 k c s x).1 c := ⟨rfl, rfl⟩
+    (Spec.unsub1 k c s x).2.count = Spec.count (Spec.unsub1 k c s x).1 c ∧
+    (Spec.heldBy s c k = [] → Spec.unsubEvents k c s none = [.ackNil k (Spec.count s c)]) :=
+  ⟨rfl, rfl, fun h => by simp [Spec.unsubEvents, h]⟩
 
 /-- The per-connection map of the code represents the spec's set after every history: same
     names, same order, for every connection and kind. -/
@@ -162,12 +189,12 @@ theorem publish_eq_spec_this_tree (ops : List Op) (ch : Bytes)
 
 /-- After its disconnect (`unsubscribe_all`) a connection id receives no `message` / `pmessage`
     frame, whatever the other clients do, until it subscribes again.  Both variants of publish. -/
-theorem nothing_after_disconnect (dedup : Bool) (ops1 ops2 : List Op) (c : ConnId)
+theorem nothing_after_disconnect (dedup idle : Bool) (ops1 ops2 : List Op) (c : ConnId)
     (hops : ∀ op ∈ ops2, op.subscribesAs c = false) :
-    msgsOf (received (Code.log dedup {} (ops1 ++ Op.disconnect c :: ops2)) c) =
-    msgsOf (received (Code.log dedup {} ops1) c) := by
+    msgsOf (received (Code.log dedup idle {} (ops1 ++ Op.disconnect c :: ops2)) c) =
+    msgsOf (received (Code.log dedup idle {} ops1) c) := by
   rw [Code.log_append, received_append, msgsOf_append]
-  suffices h : msgsOf (received (Code.log dedup (Code.after {} ops1) (Op.disconnect c :: ops2)) c) = [] by
+  suffices h : msgsOf (received (Code.log dedup idle (Code.after {} ops1) (Op.disconnect c :: ops2)) c) = [] by
     rw [h, List.append_nil]
   rw [msgs_eq_blocks]
   simp only [Code.blocks]
@@ -184,7 +211,7 @@ theorem nothing_after_disconnect (dedup : Bool) (ops1 ops2 : List Op) (c : ConnI
     have hmsg : ∃ ch, e.chan? = some ch := by
       have : e ∈ (Code.blocks dedup (Code.next (Code.after {} ops1) (Op.disconnect c)) ops2 c).flatten :=
         List.mem_flatten.2 ⟨_, hb, he⟩
-      rw [← msgs_eq_blocks] at this
+      rw [← msgs_eq_blocks dedup idle] at this
       exact chan_of_isMsg (isMsg_of_mem_msgsOf this)
     obtain ⟨ch, hch⟩ := hmsg
     have hq : quiet (Code.next (Code.after {} ops1) (Op.disconnect c)) c ch := by
@@ -199,15 +226,15 @@ theorem nothing_after_disconnect (dedup : Bool) (ops1 ops2 : List Op) (c : ConnI
 /-- After UNSUBSCRIBE from `ch` (named, or without arguments) by a connection none of whose
     patterns matches `ch`, no frame published on `ch` reaches it, whatever the other clients do,
     until it subscribes again.  Both variants of publish. -/
-theorem nothing_after_unsubscribe (dedup : Bool) (ops1 ops2 : List Op) (c : ConnId) (ch : Bytes)
+theorem nothing_after_unsubscribe (dedup idle : Bool) (ops1 ops2 : List Op) (c : ConnId) (ch : Bytes)
     (xs : Option (List Bytes)) (hx : ∀ l, xs = some l → ch ∈ l)
     (hpat : ∀ p ∈ Spec.heldBy (Spec.after [] ops1) c .pat, Spec.glob p ch = false)
     (hops : ∀ op ∈ ops2, op.subscribesAs c = false) :
-    ∀ e ∈ received (Code.log dedup (Code.after {} (ops1 ++ [Op.unsubscribe c .chan xs])) ops2) c,
+    ∀ e ∈ received (Code.log dedup idle (Code.after {} (ops1 ++ [Op.unsubscribe c .chan xs])) ops2) c,
       e.chan? ≠ some ch := by
   intro e he hch
   have hmsg : e.isMsg = true := by cases e <;> simp_all [Event.chan?, Event.isMsg]
-  have hm : e ∈ msgsOf (received (Code.log dedup (Code.after {} (ops1 ++ [Op.unsubscribe c .chan xs])) ops2) c) :=
+  have hm : e ∈ msgsOf (received (Code.log dedup idle (Code.after {} (ops1 ++ [Op.unsubscribe c .chan xs])) ops2) c) :=
     List.mem_filter.2 ⟨he, hmsg⟩
   rw [msgs_eq_blocks] at hm
   obtain ⟨b, hb, heb⟩ := List.mem_flatten.1 hm
@@ -224,14 +251,14 @@ theorem nothing_after_unsubscribe (dedup : Bool) (ops1 ops2 : List Op) (c : Conn
 
 /-- After PUNSUBSCRIBE from pattern `p` (named, or without arguments) no `pmessage` naming `p`
     reaches the connection, whatever the other clients do, until it subscribes again. -/
-theorem nothing_after_punsubscribe (dedup : Bool) (ops1 ops2 : List Op) (c : ConnId) (p : Bytes)
+theorem nothing_after_punsubscribe (dedup idle : Bool) (ops1 ops2 : List Op) (c : ConnId) (p : Bytes)
     (xs : Option (List Bytes)) (hx : ∀ l, xs = some l → p ∈ l)
     (hops : ∀ op ∈ ops2, op.subscribesAs c = false) :
     ∀ ch m, Event.pmessage p ch m ∉
-      received (Code.log dedup (Code.after {} (ops1 ++ [Op.unsubscribe c .pat xs])) ops2) c := by
+      received (Code.log dedup idle (Code.after {} (ops1 ++ [Op.unsubscribe c .pat xs])) ops2) c := by
   intro ch m he
   have hm : Event.pmessage p ch m ∈
-      msgsOf (received (Code.log dedup (Code.after {} (ops1 ++ [Op.unsubscribe c .pat xs])) ops2) c) :=
+      msgsOf (received (Code.log dedup idle (Code.after {} (ops1 ++ [Op.unsubscribe c .pat xs])) ops2) c) :=
     List.mem_filter.2 ⟨he, rfl⟩
   rw [msgs_eq_blocks] at hm
   obtain ⟨b, hb, heb⟩ := List.mem_flatten.1 hm
@@ -245,15 +272,15 @@ theorem nothing_after_punsubscribe (dedup : Bool) (ops1 ops2 : List Op) (c : Con
     frames for that PUBLISH's receivers equal to the connection, each carrying the published
     channel and payload (and the receiver's pattern) unchanged (`msgBlock`).  In particular a
     stream only ever grows at its end (`Code.log_append`). -/
-theorem publish_order_preserved (dedup : Bool) (ops : List Op) (c : ConnId) :
-    msgsOf (received (Code.log dedup {} ops) c) = (Code.blocks dedup {} ops c).flatten :=
-  msgs_eq_blocks dedup {} ops c
+theorem publish_order_preserved (dedup idle : Bool) (ops : List Op) (c : ConnId) :
+    msgsOf (received (Code.log dedup idle {} ops) c) = (Code.blocks dedup {} ops c).flatten :=
+  msgs_eq_blocks dedup idle {} ops c
 
 /-- The log of a longer history extends the log of the shorter one (nothing is inserted,
     reordered or retracted), hence so does every connection's stream. -/
-theorem stream_append_only (dedup : Bool) (ops1 ops2 : List Op) (c : ConnId) :
-    received (Code.log dedup {} (ops1 ++ ops2)) c =
-      received (Code.log dedup {} ops1) c ++ received (Code.log dedup (Code.after {} ops1) ops2) c := by
+theorem stream_append_only (dedup idle : Bool) (ops1 ops2 : List Op) (c : ConnId) :
+    received (Code.log dedup idle {} (ops1 ++ ops2)) c =
+      received (Code.log dedup idle {} ops1) c ++ received (Code.log dedup idle (Code.after {} ops1) ops2) c := by
   rw [Code.log_append, received_append]
 
 /-- FULL STATEMENT (`dedup = false`): block by block, a connection receives — up to the order of
@@ -304,7 +331,11 @@ def exampleOps : List Op :=
    .publish 3 [110, 101, 119, 115] [0, 255, 13, 10], .unsubscribe 1 .chan (some [[110, 101, 119, 115]]), .unsubscribe 2 .pat none,
    .publish 3 [110, 101, 119, 115] [1], .disconnect 1, .publish 3 [110, 101, 119, 115] [2]]
 
-example : Code.log false {} exampleOps = Spec.log [] exampleOps := by decide
+example : Code.log false true {} exampleOps = Spec.log [] exampleOps := by decide
+-- a client holding nothing unsubscribes by name, and without names (nil-name confirmation):
+example : Code.log false true {} [.unsubscribe 1 .chan (some [[97], [98]]), .subscribe 1 .pat [[42]], .unsubscribe 1 .chan none] =
+    [(1, .ack ⟨.chan, true, [97], 0, false⟩), (1, .ack ⟨.chan, true, [98], 0, false⟩), (1, .ack ⟨.pat, false, [42], 1, true⟩),
+     (1, .ackNil .chan 1)] := by decide
 example : ∀ op ∈ exampleOps, Code.clientOp op = true := by decide
 example : Spec.deliveries (Spec.after [] (exampleOps.take 3)) [110, 101, 119, 115] =
     [(1, none), (2, some [110, 42]), (2, some [42]), (1, some [110, 63, 119, 115])] := by decide
